@@ -13,6 +13,11 @@ type ruleFn func(c *Check, p *Prog)
 
 var rules = map[string]ruleFn{
 	"C07": ruleC07,
+	"C08": ruleC08,
+	"C09": ruleC09,
+	"C10": ruleC10,
+	"C11": ruleC11,
+	"C12": ruleC12,
 }
 
 func verifDir() string {
